@@ -13,7 +13,7 @@
 import Driver.Proto
 import FcModel.Spec.C13
 import FcModel.Csv
-namespace Fc.Drv.C13x
+namespace Fc.Drv.C13
 open Fc.W Fc.Drv
 
 def hexDigit (n : Nat) : Char := if n < 10 then Char.ofNat (48 + n) else Char.ofNat (87 + n)
@@ -119,11 +119,6 @@ def opC13Dec : P String := do
   let cs := if t == "-" then [] else t.toList.map Char.toNat
   pure s!"dec={match b64dec cs with | some d => hexOfBytes d | none => "none"}"
 
-end Fc.Drv.C13x
-
-namespace Fc.Drv
-open Fc.Drv.C13x
-
 def handleC13 (op : String) : Option (P String) :=
   match op with
   | "c13vtu" => some opC13Vtu
@@ -132,4 +127,6 @@ def handleC13 (op : String) : Option (P String) :=
   | "c13dec" => some opC13Dec
   | _ => none
 
-end Fc.Drv
+end Fc.Drv.C13
+
+def Fc.Drv.handleC13 := Fc.Drv.C13.handleC13
